@@ -182,6 +182,7 @@ func TestVerif_C18(t *testing.T) {
 	c18Rdv(r)
 	c18Race(r)
 	c18FinRace(r)
+	c18Backlog(r)
 
 	r.Require("chunks_delivered", 1000)
 	r.Require("eof_after_fin", 200)
@@ -945,4 +946,151 @@ func c18FinRace(r *verifkit.R) {
 		r.Add("state_observations", trials/4)
 		r.Eval("finrace/"+variant, true)
 	})
+}
+
+// ---------------------------------------------------------------------------- backlog teardown
+
+// c18Backlog: stream A has a stalled reader and a full receive queue (64 chunks), the frame loop
+// that feeds it is parked inside HandleStreamData on the 65th frame. A close / reset / local
+// removal of A from another goroutine must still complete, must release the parked frame loop and
+// must leave the unrelated stream B (fed by another connection's frame loop on the same manager)
+// fully working: B's data and the data carried by its FIN frame are delivered before end-of-stream.
+// This is the one place where a bound on progress is the verdict (a teardown that never returns
+// has no other observable): the bound is generous (c18Progress) — on a healthy tree every step
+// takes microseconds — and the keys are distinct from every byte/state verdict.
+const c18Progress = 8 * time.Second
+
+func c18Backlog(r *verifkit.R) {
+	n := r.N(40, 600)
+	stuck := false
+	r.Cases("backlog", n, func(ci int, rng *verifkit.Rand) {
+		if stuck || c18GaveUp.Load() {
+			return
+		}
+		m := c18Manager(rng)
+		a, aid, err1 := c18Accept(m, rng)
+		b, bid, err2 := c18Accept(m, rng)
+		if err1 != nil || err2 != nil {
+			r.Inconclusive("AcceptStream failed")
+			return
+		}
+		extra := 1 + rng.Intn(3)
+		variant := []string{"close-frame", "reset-frame", "local-remove", "manager-close"}[rng.Intn(4)]
+		full := make(chan struct{})
+		feederDone := make(chan struct{})
+		var fedA atomic.Int64
+		go func() { // frame loop of connection 1: 64 frames fill the queue, the next one parks
+			defer close(feederDone)
+			for k := 0; k < 64+extra; k++ {
+				if k == 64 {
+					close(full)
+				}
+				if m.HandleStreamData(aid, 0, []byte{byte(k), 1, 2, 3}) != nil {
+					return
+				}
+				fedA.Add(1)
+			}
+		}()
+		if !c18Wait(full) {
+			c18Stall(r, "backlog: the first 64 frames were not accepted")
+			return
+		}
+		for i := 0; i < 20; i++ {
+			runtime.Gosched()
+		}
+		time.Sleep(time.Duration(rng.Intn(3)) * 200 * time.Microsecond) // shaping only: let the 65th frame park
+		tdDone := make(chan struct{})
+		go func() {
+			defer close(tdDone)
+			switch variant {
+			case "close-frame":
+				m.HandleStreamClose(aid)
+			case "reset-frame":
+				m.HandleStreamReset(aid, 9)
+			case "local-remove":
+				m.RemoveStream(aid)
+			default:
+				m.Close()
+			}
+		}()
+		r.Add("close_or_reset_frames", 1)
+		r.Add("backlog_teardowns", 1)
+		within := func(ch <-chan struct{}) bool {
+			t := time.NewTimer(c18Progress)
+			defer t.Stop()
+			select {
+			case <-ch:
+				return true
+			case <-t.C:
+				return false
+			}
+		}
+		w := map[string]any{"variant": variant, "frames_for_A": 64 + extra}
+		ok := true
+		if !within(tdDone) {
+			ok = false
+			r.Violation("backlog-teardown:close-never-completed", "backlog", ci,
+				fmt.Sprintf("%s of a stream with a full receive queue and a parked frame loop did not return within %v (state %s)", variant, c18Progress, a.State()), w)
+		} else {
+			if !a.IsClosed() || a.State() != stream.StateClosed {
+				ok = false
+				r.Violation("teardown:"+variant+":stream-not-closed", "backlog", ci, "stream is "+a.State().String()+" after the teardown returned", w)
+			}
+			if !within(feederDone) {
+				ok = false
+				r.Violation("backlog-teardown:parked-frame-loop-not-released", "backlog", ci,
+					fmt.Sprintf("the frame loop parked on the closed stream was not released within %v", c18Progress), w)
+			}
+		}
+		// the unrelated stream, fed by another connection's frame loop (skipped when the whole manager was closed)
+		if variant != "manager-close" {
+			rd := c18StartReader(b)
+			defer rd.cancel()
+			d1, d2 := rng.Bytes(1+rng.Intn(32)), rng.Bytes(1+rng.Intn(32))
+			fedB := make(chan struct{})
+			go func() {
+				defer close(fedB)
+				m.HandleStreamData(bid, 0, d1)
+				m.HandleStreamData(bid, protocol.FlagFinWrite, d2)
+			}()
+			r.Add("fin_with_data_frames", 1)
+			if !within(rd.done) {
+				ok = false
+				got, _ := rd.snapshot()
+				r.Violation("backlog-teardown:unrelated-stream-starved", "backlog", ci,
+					fmt.Sprintf("after %s of the backlogged stream, another stream of the same manager did not get its data and FIN within %v (read %d of %d bytes)", variant, c18Progress, len(c18Join(got)), len(d1)+len(d2)), w)
+			} else {
+				got, rerr := rd.snapshot()
+				if !c18IsEnd(rerr) || !bytes.Equal(c18Join(got), append(append([]byte{}, d1...), d2...)) {
+					ok = false
+					r.Violation("fin-with-data:eof-before-data:blocked-reader", "backlog", ci, "unrelated stream lost bytes that arrived before or with its FIN", w)
+				} else {
+					r.Add("chunks_delivered", len(got))
+					r.Add("eof_after_fin", 1)
+					r.Add("backlog_unrelated_stream_ok", 1)
+				}
+			}
+		}
+		if !ok {
+			// un-wedge whatever is stuck (drain A so that the parked push returns), then stop this phase
+			stuck = true
+			cctx, cancel := context.WithTimeout(context.Background(), time.Second)
+			for i := 0; i < 80; i++ {
+				if _, err := a.Read(cctx); err != nil {
+					break
+				}
+			}
+			cancel()
+			within(tdDone)
+		}
+		r.Eval(fmt.Sprintf("backlog|%s|%d", variant, extra), ok)
+		if ok && ci == 0 {
+			r.Sample(map[string]any{"phase": "backlog", "case": w})
+		}
+		if ok {
+			c18Release(m)
+		}
+	})
+	r.Require("backlog_teardowns", 20)
+	r.Require("backlog_unrelated_stream_ok", 10)
 }
